@@ -326,19 +326,43 @@ def reference():
         for i in range(n):
             if cur[i]: res[i].add(v)
     return res
-ref = reference()
-outs = {}
-bad = None
-for perm in itertools.islice(itertools.product(range(n), repeat=min(2 * n, 6)), 4000):
-    bbs, stats = build()
-    Sched.order = list(perm)
-    r = A.LivenessAnalysis(stats, initial={v: bbs[0] for v in I["init"]}, include_unreachable=incl).run(bbs)
-    got = {b.idx: set(r[b].keys()) for b in bbs}
-    key = str(sorted((k, sorted(v)) for k, v in got.items()))
-    outs.setdefault(key, perm)
-    if got != ref and bad is None:
-        bad = {"order": list(perm), "got": {k: sorted(v) for k, v in got.items()}, "want": {k: sorted(v) for k, v in ref.items()}}
-print(json.dumps({"violates": bad is not None or len(outs) > 1, "distinct_results_over_orders": len(outs), "witness": bad, "cfg": I}))
+def attempt(I_):
+    global I, n
+    I, n = I_, I_["n"]
+    ref = reference()
+    outs, bad = {}, None
+    for perm in itertools.islice(itertools.product(range(n), repeat=min(2 * n, 6)), I_.get("max_orders", 4000)):
+        bbs, stats = build()
+        Sched.order = list(perm)
+        r = A.LivenessAnalysis(stats, initial={v: bbs[0] for v in I["init"]}, include_unreachable=incl).run(bbs)
+        got = {b.idx: set(r[b].keys()) for b in bbs}
+        key = str(sorted((k, sorted(v)) for k, v in got.items()))
+        outs.setdefault(key, perm)
+        if got != ref and bad is None:
+            bad = {"order": list(perm), "got": {k: sorted(v) for k, v in got.items()}, "want": {k: sorted(v) for k, v in ref.items()}}
+    return bad, len(outs)
+I0 = I
+bad, nouts = attempt(I0)
+found_in = "counter-model CFG"
+if bad is None and nouts <= 1:
+    # the counter-model to inductiveness need not be reachable: bounded search over small CFGs
+    # (counterexample FINDER only; a miss proves nothing and leaves the line no-failing-input-found)
+    import random
+    rnd = random.Random(I0.get("seed", 0))
+    for trial in range(3000):
+        m = rnd.choice([2, 3, 3, 4])
+        vs = ["v0", "v1", "v2"][: rnd.choice([1, 2, 2, 3])]
+        J = {"n": m, "incl": incl, "max_orders": 60,
+             "succ": [[a, b] for a in range(m) for b in range(m) if rnd.random() < 0.3],
+             "dsucc": [[a, b] for a in range(m) for b in range(m) if rnd.random() < 0.12] if incl else [],
+             "used": [[v for v in vs if rnd.random() < 0.3] for _ in range(m)],
+             "asg": [[v for v in vs if rnd.random() < 0.3] for _ in range(m)],
+             "init": [v for v in vs if rnd.random() < 0.4]}
+        bad, nouts = attempt(J)
+        if bad is not None or nouts > 1:
+            found_in = "bounded search over random small CFGs (trial %d)" % trial
+            break
+print(json.dumps({"violates": bad is not None or nouts > 1, "distinct_results_over_orders": nouts, "witness": bad, "cfg": I, "found_in": found_in}))
 '''
 
 
